@@ -102,6 +102,9 @@ func sweepRequires(fn *ssa.Function) []string {
 func (e *Engine) sweepContract(fn *ssa.Function, prop string) *Contract {
 	ctr := &Contract{Key: funcKey(fn), Loops: map[int]*LoopSpec{}, Props: []string{prop}, File: "synthesised by govc (sweep)"}
 	reqs := sweepRequires(fn)
+	if e.needPrivate != nil {
+		reqs = append(reqs, e.privateRequires(fn)...)
+	}
 	// closures: captured receivers / contexts / syntax nodes are the enclosing function's (non-nil) values
 	for _, fv := range fn.FreeVars {
 		et := fv.Type().(*types.Pointer).Elem()
@@ -127,6 +130,12 @@ func (e *Engine) sweepContract(fn *ssa.Function, prop string) *Contract {
 		}
 	}
 	for _, r := range reqs {
+		if strings.HasPrefix(r, "@") {
+			if c, err := parseClause(r, "sweep"); err == nil {
+				ctr.Requires = append(ctr.Requires, c)
+			}
+			continue
+		}
 		c, err := parseClause("@sweep-entry "+r, "sweep")
 		if err == nil {
 			ctr.Requires = append(ctr.Requires, c)
